@@ -304,7 +304,7 @@ def _one_snapshot_structural(ctx, r):
             out = []
             if isinstance(node, ast.AST):
                 for c in _calls(node):
-                    if isinstance(c.func, (ast.Name, ast.Attribute)) and (self.index.canon(c.func, self.module) or "") in ("os.stat", "os.lstat"):
+                    if isinstance(c.func, (ast.Name, ast.Attribute)) and (self.index.canon(c.func, self.module) or "") in ("os.stat", "os.lstat", "os.path.getmtime"):
                         out.append("builtins.FileNotFoundError")
             return out
 
@@ -339,7 +339,8 @@ def _one_snapshot_structural(ctx, r):
     r.check(stats_ok and n_stat_paths >= 1 and not other, con + "::stat-once", f"{n_stat_paths} path(s) stat the file, all on the not-yet-cached branch, once",
             "a file can be stat'ed more than once per invocation (or outside the cache lookup): existence and modification time of one file may come from different moments",
             cfs.where)
-    mt = any(isinstance(n, ast.Attribute) and n.attr == "st_mtime" for m in cfs.methods.values() for n in ast.walk(m.node))
+    mt = any(isinstance(n, ast.Attribute) and n.attr == "st_mtime" for m in cfs.methods.values() for n in ast.walk(m.node)) or any(
+        (idx.canon(c.func, m.module) or "") == "os.path.getmtime" for m in cfs.methods.values() for c in _calls(m.node) if isinstance(c.func, (ast.Name, ast.Attribute)))
     r.check(mt, con + "::mtime", "modification time = st_mtime", "the recorded time is not the file's modification time (st_mtime)", cfs.where)
     nofollow = []
     for m in cfs.methods.values():
